@@ -111,7 +111,7 @@ def build_world(case, scratch):
         if tree["single"]:
             materialise(base, [[tree["name"], tree["files"][0][1], tree["files"][0][2]]])
         else:
-            materialise(root, tree["files"], tree["dirs"])
+            materialise(root, tree["files"], tree["dirs"], tree.get("links", ()))
         mpath = os.path.join(metadir, f"t{k}.torrent")
         if tor["encoder"][0] == "tool":
             oc = drive.create(tor["encoder"][1], root, mpath, piece_length=pl, progress=0)
